@@ -46,10 +46,7 @@ inductive BErr where
 inductive BRes (α : Type) where
   | ok (a : α)
   | err (e : BErr)
-  deriving Repr
-
-instance [DecidableEq α] : DecidableEq (BRes α) := fun a b => by
-  cases a <;> cases b <;> simp <;> exact inferInstance
+  deriving DecidableEq, Repr
 
 def placeholderErr : ErrObj := { code := 0, message := [], data := none }
 
